@@ -94,3 +94,74 @@ pub fn run() {
         println!("{}", r);
     });
 }
+
+/// Histories of several timers, then ONE measured idle dispatch (C12): the wait must be bounded by live armings only.
+/// Case line: <timeout_ms> | ops    ops: i<k>:<ms> insert timer k (deadline ms after start), s<k>:<ms> set_deadline + update,
+/// x<k> disable, n<k> enable, r<k> remove.   Output: elapsed_us fired-timers(comma list or -) ok
+fn run_case2(line: &str) -> String {
+    let parts: Vec<&str> = line.split('|').collect();
+    if parts.len() != 2 {
+        return "BAD".into();
+    }
+    let timeout: i64 = parts[0].trim().parse().unwrap_or(0);
+    let mut event_loop: EventLoop<'static, ()> = EventLoop::try_new().expect("loop");
+    let handle = event_loop.handle();
+    let fired: Rc<std::cell::RefCell<Vec<u32>>> = Rc::new(std::cell::RefCell::new(vec![]));
+    let mut disps: std::collections::HashMap<u32, (calloop::Dispatcher<'static, Timer, ()>, calloop::RegistrationToken)> = Default::default();
+    let start = Instant::now();
+    for op in parts[1].split_whitespace() {
+        let kind = op.as_bytes()[0];
+        let rest = &op[1..];
+        let (k, ms): (u32, u64) = match rest.split_once(':') {
+            Some((a, b)) => (a.parse().unwrap_or(0), b.parse().unwrap_or(0)),
+            None => (rest.parse().unwrap_or(0), 0),
+        };
+        match kind {
+            b'i' => {
+                let f = fired.clone();
+                let d = calloop::Dispatcher::new(Timer::from_deadline(start + Duration::from_millis(ms)), move |_, _, _: &mut ()| {
+                    f.borrow_mut().push(k);
+                    TimeoutAction::Drop
+                });
+                if let Ok(t) = handle.register_dispatcher(d.clone()) {
+                    disps.insert(k, (d, t));
+                }
+            }
+            b's' => {
+                if let Some((d, t)) = disps.get(&k) {
+                    d.as_source_mut().set_deadline(start + Duration::from_millis(ms));
+                    let _ = handle.update(t);
+                }
+            }
+            b'x' => {
+                if let Some((_, t)) = disps.get(&k) {
+                    let _ = handle.disable(t);
+                }
+            }
+            b'n' => {
+                if let Some((_, t)) = disps.get(&k) {
+                    let _ = handle.enable(t);
+                }
+            }
+            b'r' => {
+                if let Some((_, t)) = disps.remove(&k) {
+                    handle.remove(t);
+                }
+            }
+            _ => {}
+        }
+    }
+    let setup = start.elapsed();
+    let r = event_loop.dispatch(Some(Duration::from_millis(timeout.max(0) as u64)), &mut ());
+    let el = start.elapsed();
+    let f = fired.borrow();
+    let fl = if f.is_empty() { "-".to_string() } else { f.iter().map(|k| k.to_string()).collect::<Vec<_>>().join(",") };
+    format!("{} {} {} {}", el.as_micros(), fl, r.is_ok() as u8, setup.as_micros())
+}
+
+pub fn run2() {
+    crate::for_each_line(|l| {
+        let r = std::panic::catch_unwind(|| run_case2(l)).unwrap_or_else(|_| "PANIC".to_string());
+        println!("{}", r);
+    });
+}
